@@ -233,7 +233,11 @@ func (fr *Frame) callFunction(fn *ssa.Function, args []Term, binds []Term, st *S
 	pp := fnPkgPath(fn)
 	if !u.w.inRepo(pp) && pureLibraryPkgs[pp] {
 		u.libAssumed[fn.String()]++
-		return fr.freshResults(fn.Signature.Results(), st, "lib"), st
+		if readOnlyLibPkgs[pp] {
+			return fr.freshResults(fn.Signature.Results(), st, "lib"), st
+		}
+		st2 := fr.havocPointerArgs(fn, args, argVals, st)
+		return fr.freshResults(fn.Signature.Results(), st2, "lib"), st2
 	}
 	return fr.unknownCall(key, fn.Signature.Results(), st, pos)
 }
@@ -269,6 +273,12 @@ func (fr *Frame) unknownCall(key string, results *types.Tuple, st *State, pos to
 	st.alloc = a
 	u.epochAlloc[st.epoch] = a
 	fr.preserveLocals(pre, st)
+	for g, old := range st.ghost {
+		if g == "epoch" || strings.HasPrefix(g, "visited") {
+			continue
+		}
+		st.ghost[g] = u.fresh("g!"+g, old.Sort)
+	}
 	return fr.freshResults(results, st, "unk"), st
 }
 
@@ -1114,4 +1124,102 @@ func (fr *Frame) funcLeaves(v ssa.Value, depth int) ([]ssa.Value, bool) {
 		return out, len(out) > 0
 	}
 	return nil, false
+}
+
+// readOnlyLibPkgs: library packages whose functions never write through their arguments (formatting, parsing of
+// values, pure computations). Functions of the other assumed-total packages may write through pointer arguments
+// (decoders, readers, errors.As ...): the cells their pointer arguments point to are havocked.
+var readOnlyLibPkgs = map[string]bool{
+	"fmt": true, "log": true, "strconv": true, "strings": true, "bytes": true, "time": true, "math": true, "math/rand": true,
+	"path/filepath": true, "path": true, "mime": true, "encoding/base64": true, "crypto/md5": true, "unicode": true, "unicode/utf8": true,
+	"regexp": true, "rsc.io/binaryregexp": true, "google.golang.org/grpc/status": true, "google.golang.org/grpc/codes": true,
+	"net/url": true, "net/textproto": true, "cloud.google.com/go/bigtable": true, "context": true, "sync/atomic": true,
+}
+
+// havocPointerArgs: a library function without contract may write through its pointer arguments: the cells of the
+// pointees (two levels: *p and what the pointers stored in *p point to) become unknown; fresh objects may appear.
+func (fr *Frame) havocPointerArgs(fn *ssa.Function, args []Term, argVals []ssa.Value, st *State) *State {
+	u := fr.u
+	type target struct {
+		t types.Type
+		a Term
+	}
+	var targets []target
+	addPtr := func(t types.Type, a Term) {
+		if p, ok := t.Underlying().(*types.Pointer); ok {
+			targets = append(targets, target{p.Elem(), a})
+		}
+	}
+	for i, a := range args {
+		if i >= len(fn.Params) {
+			break
+		}
+		pt := fn.Params[i].Type()
+		if i == 0 && fn.Signature.Recv() != nil {
+			continue // the receiver is a library object: its internals are never read by repo code
+		}
+		switch pt.Underlying().(type) {
+		case *types.Pointer:
+			addPtr(pt, a)
+		case *types.Interface:
+			// an interface argument built from a pointer in the caller (json.Decode(&x), errors.As(err, &target))
+			if argVals != nil && i < len(argVals) {
+				if mi, ok := argVals[i].(*ssa.MakeInterface); ok {
+					addPtr(mi.X.Type(), IVal(a))
+				}
+			}
+		}
+	}
+	if len(targets) == 0 {
+		return st
+	}
+	post := st.clone()
+	al := u.fresh("alloc", SInt)
+	u.assume(True, Ge(al, st.alloc))
+	post.alloc = al
+	post.layer = &heapLayer{prevHeaps: st.heaps, prevEpoch: st.epoch, prevLayer: st.layer, allocOld: st.alloc, allocNew: al}
+	post.heaps = map[string]Term{}
+	// collect the objects whose cells become unknown, per heap key
+	objs := map[string][]Term{}
+	sorts := map[string]Sort{}
+	var order []string
+	add := func(t types.Type, a Term) {
+		for _, c := range fr.leafCellsOf(t) {
+			if !u.w.sh.repoKeys[c.key] {
+				continue // a cell type the repo code never reads or writes
+			}
+			if _, ok := objs[c.key]; !ok {
+				order = append(order, c.key)
+			}
+			objs[c.key] = append(objs[c.key], Obj(a))
+			sorts[c.key] = u.w.sortOf(c.typ)
+		}
+	}
+	for _, tg := range targets {
+		add(tg.t, tg.a)
+		// second level: pointers stored in *p before the call
+		for _, c := range fr.leafCellsAt(tg.t, tg.a) {
+			if p, ok := c.typ.Underlying().(*types.Pointer); ok {
+				vs := u.w.sortOf(c.typ)
+				pv := Select(u.heap(st, c.key, vs), c.idx, vs)
+				add(p.Elem(), pv)
+			}
+		}
+	}
+	l := Sym("l!", SLoc)
+	for _, k := range order {
+		vs := sorts[k]
+		old := u.heap(st, k, vs)
+		h := u.fresh("Hlib!"+k, ArraySort(SLoc, vs))
+		var conds []Term
+		for _, o := range objs[k] {
+			conds = append(conds, Neq(Obj(l), o))
+		}
+		conds = append(conds, Le(Obj(l), st.alloc))
+		u.assume(True, Forall([]Term{l}, Implies(And(conds...), Eq(Select(h, l, vs), Select(old, l, vs))), []Term{Select(h, l, vs)}))
+		u.heapWF(h, vs, al)
+		post.heaps[k] = h
+		u.recordWriteContract(fr, k)
+	}
+	return post
 }
